@@ -127,7 +127,13 @@ class Interp(EngineBase):
         """number of elements x of the multiset l with pred(x) (an uninterpreted count over the reified predicate)"""
         x = z3.Int('cw_x')
         BAGCOUNT = z3.Function('bagcount', IntArr, BoolArr, I)
-        arr = z3.Lambda([x], pred(x))
+        body = pred(x)
+        # the reified predicate is an array CONSTANT named after the predicate's text and defined by an axiom (a lambda term
+        # in the VC makes even the ground queries of the model search come back `unknown`); two counts over the same
+        # predicate text share the constant, exactly as two syntactically equal lambdas did
+        import hashlib
+        arr = z3.Const('cwarr_' + hashlib.sha1(body.sexpr().encode()).hexdigest()[:12], BoolArr)
+        self.st.assume(z3.ForAll([x], z3.Select(arr, x) == body))
         cnt = BAGCOUNT(l.cnt, arr)
         self.st.assume(z3.And(cnt >= 0, cnt <= l.n))
         return cnt
@@ -525,8 +531,12 @@ class Interp(EngineBase):
             # list concatenation: multiplicities add up
             self.bag_facts(a)
             self.bag_facts(b)
-            x = z3.Int('cc_x')
-            r = ListObj(z3.Lambda([x], z3.Select(a.cnt, x) + z3.Select(b.cnt, x)), a.n + b.n, a.elem or b.elem)
+            x = z3.Int(fresh_name('cc_x'))
+            r = fresh_list('concat', a.elem or b.elem)
+            # (an axiom instead of a lambda term: lambdas make the ground queries of the model search `unknown`)
+            self.st.assume(z3.ForAll([x], z3.Select(r.cnt, x) == z3.Select(a.cnt, x) + z3.Select(b.cnt, x)))
+            self.st.assume(r.n == a.n + b.n)
+            self.bag_facts(r)
             return r
         for v in (a, b):
             if isinstance(v, (ListObj, PyList, TupleV, str)) or (isinstance(v, Sym) and v.kind == 'str'):
